@@ -66,7 +66,7 @@ func c56SkipName(m []byte, off int) int {
 			if off+2 > len(m) {
 				return -1
 			}
-			ptr := int(binary.BigEndian.Uint16(m[off:])&0x3FFF)
+			ptr := int(binary.BigEndian.Uint16(m[off:]) & 0x3FFF)
 			if ptr >= len(m) {
 				return -1
 			}
@@ -138,9 +138,9 @@ func c56Walk(m []byte) (verdict int, bounds []int) {
 
 type c56Case struct {
 	Method     string `json:"method"`
-	WireHex    string `json:"wire_hex"`  // what the client put on the wire (abbreviated in samples)
+	WireHex    string `json:"wire_hex"` // what the client put on the wire (abbreviated in samples)
 	WireLen    int    `json:"wire_len"`
-	Gen        string `json:"gen"`       // valid | mutated:<how> | big:<how>
+	Gen        string `json:"gen"`        // valid | mutated:<how> | big:<how>
 	QueryForm  string `json:"query_form"` // GET: plain | padded | dup | missing | extra-params | bad-b64
 	ClientForm string `json:"client_form"`
 	ClientIP   string `json:"client_ip"`
@@ -562,8 +562,8 @@ func c56Check(tb ev.TB, rec *ev.Rec, c *c56Case) {
 			}
 			var fw dns.Msg
 			fw.Unpack(packed)
-			fail(key, "%s message of %d bytes (%s, wire %s) was not rejected: %d bytes forwarded (%d questions, %d+%d+%d RRs)",
-				c.Method, len(c.wire), c.Gen, c56WireName[verdict], len(packed), len(fw.Question), len(fw.Answer), len(fw.Ns), len(fw.Extra))
+			fail(key, "%s message of %d bytes (%s, wire %s) was not rejected: %d bytes forwarded (%d questions, %d+%d+%d RRs); head=%.80s",
+				c.Method, len(c.wire), c.Gen, c56WireName[verdict], len(packed), len(fw.Question), len(fw.Answer), len(fw.Ns), len(fw.Extra), c.WireHex)
 		}
 		return
 	}
